@@ -76,6 +76,17 @@ def c09_meshes():
     rlo, rhi = refine_region((0, 1, 0), (1, 5, 0))       # fine y 2..11
     l1 = tile(rlo, rhi, [[], [6], []])                   # y 2..5 (4 wide) and 6..11 (6 wide)
     M.append(Mesh('mixed-y-4-6', 3, (2, 8, 2), [l0, l1]))
+    # a fine box whose far face looks at unrefined territory at an index no other box starts at (8 + thin 2-wide box)
+    # (every grid size and every box start is a multiple of 4, only the far face of the thin box is not)
+    l0 = tile((0, 0, 0), (7, 3, 3), [[4], [], []])
+    a = tile(*refine_region((0, 0, 0), (3, 3, 3)), [[], [], []])       # fine x 0..7, y 0..7, z 0..7
+    b = tile(*refine_region((4, 0, 0), (4, 3, 3)), [[], [], []])       # fine x 8..9
+    M.append(Mesh('thin-box-end-x', 3, (8, 4, 4), [l0, a + b]))
+    l0 = tile((0, 0, 0), (3, 3, 7), [[], [], [4]])
+    a = tile(*refine_region((0, 0, 2), (3, 3, 2)), [[], [4], []])      # fine z 4..5 only: two boxes, starts 0 and 4 along y
+    M.append(Mesh('thin-box-end-z', 3, (4, 4, 8), [l0, a]))
+    # refined levels made of separate patches
+    M += [m for m in families.curated_meshes() if m.name in ('3d-2lev-2patch', '3d-3lev-2patch')]
     return M
 
 
@@ -222,6 +233,15 @@ def cases():
         for k in range(2 if tier == 'quick' else 4):
             out.append({'label': '%s/k%d' % (m.name, k), 'mesh': m, 'fields': fsets[(i + k) % 3],
                         'layout': families.scatter_layouts(m, rnd, max_files=2), 'geom': (i + k) % 3})
+    n = 0
+    while n < (12 if tier == 'quick' else 80):
+        m = families.random_mesh(rnd, 3, max_levels=3, max_boxes=4, max_extent=6, patches=rnd.choice([1, 2, 2]))
+        # the property speaks of boxes aligned on an even blocking factor, on every level including the coarsest
+        if len(m.boxes) < 2 or any(lo % 2 or (hi + 1) % 2 for lv in m.boxes for blo, bhi in lv for lo, hi in zip(blo, bhi)):
+            continue
+        m.name = 'rand%d' % n
+        n += 1
+        out.append({'label': m.name, 'mesh': m, 'fields': fsets[n % 3], 'layout': families.scatter_layouts(m, rnd, max_files=2), 'geom': n % 3})
     return out
 
 
